@@ -135,6 +135,8 @@ def _worker_chunk(args):
         try:
             scn = mod.gen(rng, tier, i)
             ev = mod.evaluate(ctx, scn)
+            if isinstance(scn, dict) and scn.get("family"):
+                ev.counters["family:%s%s" % (scn["family"], ("/" + scn["spend_kind"]) if scn.get("spend_kind") else "")] += 1
         except proto.ZygoteDied as e:
             out.append({"i": i, "seed": seed, "error": "zygote: %s" % e})
             continue
@@ -409,13 +411,14 @@ def run_check(mod, tier, mods_for_replay=None):
             "runs_per_hour": int(nruns / sweep_s * 3600),
             "seeds": {"master": master, "derivation": "splitmix64(master xor i*0x9E3779B97F4A7C15), i in [0,cases)"},
             "simulated_steps": {"user_lines_delivered": counters.get("lines_delivered", 0), "seam_calls": counters.get("seam_calls", 0),
-                                "note": "btcdeb has no clock; simulated time is counted in delivered lines and seam calls"},
+                                "note": "btcdeb has no timer; simulated time is counted in delivered lines and seam calls (the discrete-event clock only moves in poll/select waits on stdin, which the unchanged tree never makes)"},
             "faults": {k[6:]: v for k, v in sorted(case_counters.items()) if k.startswith("fault:")},
             "probes": {k[6:]: v for k, v in sorted(case_counters.items()) if k.startswith("probe:")},
             "terminations": {k[5:]: v for k, v in sorted(case_counters.items()) if k.startswith("term:")},
+            "workload_families": {k[7:]: v for k, v in sorted(case_counters.items()) if k.startswith("family:")},
             "other_counters": {k: v for k, v in sorted(case_counters.items()) if ":" not in k},
             "components": {"real": ["btcdeb.cpp main()", "kerl/kerl.c REPL", "functions.cpp", "instance.cpp", "debugger/*", "script/*", "value.cpp", "libsecp256k1 (unsanitised)"],
-                           "stub": ["GNU readline (simulated user)", "stdin/stdout/stderr end points (fopencookie)", "fopen (in-memory file system)", "isatty", "getenv", "exit/abort classifier"]},
+                           "stub": ["GNU readline (simulated user)", "stdin/stdout/stderr end points (fopencookie)", "fopen (in-memory file system)", "isatty", "getenv", "ioctl(TIOCGWINSZ)", "poll/select (simulated clock)", "exit/abort classifier"]},
             "flavours": list(flavours),
             "white_box_probe": white_box,
             "white_box_probe_groups": builds[flavours[0]].get("probe_groups", []),
